@@ -289,6 +289,10 @@ func runC20(c *Ctx) {
 				if strings.Contains(k, "∈{valid}") && v == 0 {
 					invalid = true
 				}
+				// the same input class met earlier: `if v.Kind() == reflect.Ptr && v.IsNil()` in front of Indirect
+				if strings.HasPrefix(k, "nil(") && v == 1 {
+					invalid = true
+				}
 			}
 			_ = vKey
 			switch {
